@@ -23,6 +23,15 @@ def add_str_operation(op: Node, start_pos: Node, end_pos: Node, \
     
     return operation
 
+def local_var_index(context: Context, stack: List[Node]) -> int:
+    # The operand is the offset of the variable in the local variables
+    # record block, like in every other opcode that refers to a local variable
+    op1 = int(stack.pop().name)
+    if (op1 % context.bytes_per_constant) > 0:
+        context.bytes_per_constant = (op1 % context.bytes_per_constant)
+    
+    return int(op1 / context.bytes_per_constant)
+
 def add_modifiers(op: Node, stack: List[Node], index: int):
     
     op_ll_pos = stack.pop()    # Last line position
@@ -151,8 +160,7 @@ class PutIntoStringOpcode(BiOpcode):
     def process(self, context: Context, stack: List[Node], \
                 fn: FunctionDef, index: int):
         
-        op1 = int(stack.pop().name)
-        lval = fn.local_vars[op1]
+        lval = fn.local_vars[local_var_index(context, stack)]
         lval = add_modifiers(lval, stack, index)
         
         op = SpAssignOperation(BinaryOperationNames.ASSIGN, index)
@@ -192,8 +200,7 @@ class PutAfterStringOpcode(BiOpcode):
     def process(self, context: Context, stack: List[Node], \
                 fn: FunctionDef, index: int):
         
-        op1 = int(stack.pop().name)
-        lval = fn.local_vars[op1]
+        lval = fn.local_vars[local_var_index(context, stack)]
         lval = add_modifiers(lval, stack, index)
         
         op = SpAssignOperation(BinaryOperationNames.ASSIGN, index)
@@ -254,8 +261,7 @@ class PutBeforeStringOpcode(BiOpcode):
     def process(self, context: Context, stack: List[Node], \
                 fn: FunctionDef, index: int):
         
-        op1 = int(stack.pop().name)
-        lval = fn.local_vars[op1]
+        lval = fn.local_vars[local_var_index(context, stack)]
         lval = add_modifiers(lval, stack, index)
         
         op = SpAssignOperation(BinaryOperationNames.ASSIGN, index)
@@ -314,8 +320,7 @@ class DeleteFromStringOpcode(BiOpcode):
     def process(self, context: Context, stack: List[Node], \
                 fn: FunctionDef, index: int):
         
-        op1 = int(stack.pop().name)
-        lval = fn.local_vars[op1]
+        lval = fn.local_vars[local_var_index(context, stack)]
         lval = add_modifiers(lval, stack, index)
         
         op = UnaryOperation(UnaryOperationNames.DELETE, index)
